@@ -1,4 +1,5 @@
 """C12 frequent items bounds bracket the truth (DESIGN.md section 5 C12): bookkeeping clauses."""
+import validators
 import fi_rules as F
 import cowrite
 import generic_lints
@@ -23,6 +24,7 @@ def run(facts, tier):
         ("couplings", lambda fa: cowrite.obligations(fa, ['frequent_items_sketch', 'reverse_purge_hash_map']), 8, "fields that every mutator updates together (counters, extremes, cached values) are still updated together"),
         ("emptiness predicate support", lambda fa: predicates.obligations(fa, ['frequent_items_sketch']), 3, "the emptiness predicate still consults every field it depended on in the reviewed tree (spec/predicates.json)"),
         ("probe masks", F.probe_masks, 6, "every probe index is reduced with the mask of the current table size"),
+        ("argument checkers", lambda fa: validators.checker_obligations(fa, ["fi"]), 4, "the argument / image checkers of the family reject exactly the reviewed ranges (spec/checkers.json)"),
         ("tautologies", lambda fa: generic_lints.tautologies(fa, ('fi/',)), 2, "no comparison / assignment / min-max with two identical operands, no if-else with identical arms"),
         ("hazards", lambda fa: hazard_lints.hazards(fa, ('fi/',)), 2, "no 64-bit value silently narrowed at a call of a library function, no numeric_limits<floating>::min() as a lowest value, no random engine constructed inside a loop, no read of a moved-from parameter, no unguarded unsigned `x - c` loop bound (reviewed instances in spec/hazards.json)"),
         ("duplicate operands", lambda fa: generic_lints.duplicate_conjuncts(fa, ('fi/',)), 2, "no logical chain tests the same operand twice (copy-paste of the wrong peer)"),
